@@ -39,7 +39,7 @@ fn setup() -> Result<Env, String> {
     ws.save_state("fresh");
     let log_path = ws.scratch.path.join("points.log");
     let log_s = log_path.to_string_lossy().into_owned();
-    let r = veryl_env(&ws, &["build"], &[("VERYL_VERIF_LOG", &log_s)]);
+    let r = veryl_env(&ws, &["build"], &[("VERYL_VERIF_LOG", &log_s), COUNTING]);
     if r.timed_out || r.code != Some(0) {
         return Err(format!("std-enabled probe project does not build: exit {:?}\n{}", r.code, r.tail(8)));
     }
